@@ -79,15 +79,21 @@ CLAIMED = {
             "keys hash; printed values are the slices. Tied to the real do_verify_attestation (files in a temp "
             "dir, stdout parsed) by correspondence over genuine triples and the listed variants.",
             "certificate verdicts come from the chain model + independent link table; SHA-256 uninterpreted"),
-    "C09": ("Lean theorems: the version relation characterised for all naturals (same major, (minor, patch) "
-            "lexicographically not newer) and equal to the property's relation; constants 5.4.1 / two retries as "
-            "specified. The bring-up model (initialize_device, _handle_bootloader, PIN object, three platforms, "
-            "TCPServer.run's exception map) is tied to the real TCPServer.run by correspondence; the oracle "
-            "Spec.C09.c09 checks on the implementation's trace: unlock at most once, PIN only after answers that "
-            "establish onboarded/bootloader/supported UI/echo/>=2 retries, and served exactly when the simulated "
-            "device's actual state makes it safe (ground truth), over the full state product.",
-            "partial: unlock_at_most_once / unlock_only_if / serves_iff are decided by the exhaustive grid "
-            "(correspondence + oracle), the theorems cover the version relation and constants"),
+    "C09": ("Lean theorems about the bring-up model for EVERY device behaviour (every script of answers, any "
+            "length, all three platforms): no message that carries PIN material (SEND_PIN, UNLOCK, CHANGE_PIN, "
+            "SGX_UNLOCK, SGX_CHANGE_PASSWORD) is emitted while the start-up and bootloader checks run "
+            "(no_pin_during_checks); when the checks hand over, the device had reported onboarded, a supported UI "
+            "version, a matching echo and >= 2 retries (checks_establish); hence any PIN-bearing message in a "
+            "bring-up implies exactly those facts, as reported in that very run (pin_only_after_checks); the unlock "
+            "command is sent at most once (unlock_at_most_once, by counting over the monadic structure); serving "
+            "starts only from signer mode with a supported signer version (served_only_if); the version relation is "
+            "characterised for all naturals and equals the property's; constants 5.4.1 / two retries as specified. "
+            "The model (initialize_device, _handle_bootloader, PIN object, three platforms, TCPServer.run's "
+            "exception map) is tied to the real TCPServer.run by correspondence; the oracle Spec.C09.c09 checks on "
+            "the implementation's trace: unlock at most once, PIN only after establishing answers, served exactly "
+            "when the simulated device's actual state makes it safe (ground truth), over the full state product.",
+            "'served whenever the state is safe' (the converse direction) is decided by the exhaustive grid "
+            "(correspondence + oracle), not by a theorem"),
     "C10": ("Lean theorems about an explicit machine over (PIN file, device PIN, default) with faults and crash "
             "points at every step boundary of the change protocol: the file changes only after the device's ack "
             "and then holds that PIN; refused/failed/aborted changes leave everything untouched; the manager "
